@@ -64,6 +64,7 @@ func (n *node) strobe() {
 	for to := range n.out {
 		out = append(out, to)
 	}
+	vh("strobe.snap", n)
 	n.mu.Unlock()
 
 	for _, to := range out {
@@ -76,6 +77,7 @@ func (n *node) invalidate() {
 	// check if we should invalidate, and figure out who we should invalidate
 	n.mu.Lock()
 	if n.invalidated {
+		vh("inv.mark", n, true)
 		n.mu.Unlock()
 		return
 	}
@@ -91,8 +93,10 @@ func (n *node) invalidate() {
 	for to := range n.out {
 		out = append(out, to)
 	}
+	vh("inv.mark", n, false)
 	n.mu.Unlock()
 
+	vh("inv.handler", n)
 	if n.afterInvalidate != nil {
 		n.afterInvalidate()
 	}
@@ -109,11 +113,13 @@ func (n *node) release() {
 	// check if we should release
 	n.mu.Lock()
 	if n.released {
+		vh("rel.mark", n, true)
 		n.mu.Unlock()
 		return
 	}
 
 	n.released = true
+	vh("rel.mark", n, false)
 	n.mu.Unlock()
 
 	if n.afterRelease != nil {
@@ -127,6 +133,7 @@ func (n *node) release() {
 		from.mu.Lock()
 		delete(from.out, n)
 		shouldRelease := len(from.out) == 0
+		vh("rel.unlink", n, from, shouldRelease)
 		from.mu.Unlock()
 
 		if shouldRelease {
@@ -161,6 +168,7 @@ func (n *node) addOut(to *node) {
 	// Release out if we did not add a dependency. This fulfills the contract
 	// that after one call to addOut, n is guaranteed to be eventually released.
 	shouldRelease := len(n.out) == 0
+	vh("addout", n, to, shouldInvalidate, shouldRelease)
 
 	to.mu.Unlock()
 	n.mu.Unlock()
@@ -175,6 +183,7 @@ func (n *node) addOut(to *node) {
 
 func (n *node) handleInvalidate(f func()) {
 	n.mu.Lock()
+	vh("arm", n, n.invalidated)
 	if n.invalidated {
 		go f()
 	} else {
@@ -188,6 +197,7 @@ func (n *node) handleInvalidate(f func()) {
 
 func (n *node) handleRelease(f func()) {
 	n.mu.Lock()
+	vh("handle.release", n, n.released)
 	if n.released {
 		go f()
 	} else {
